@@ -44,6 +44,7 @@ class Session(BusSession):
         self.age = {}                                 # label -> ms since accepted (incomplete only)
         self.reg = N.Registry()
         self.rules = {l: Counter() for l in SLOTS}
+        self.undecided = set()
         self.small = params.get('small', False)
         self.calls = []               # outstanding calls: [caller, callee, serial] in the order they were made
         self._prefilled = False
@@ -106,6 +107,10 @@ class Session(BusSession):
                 for t in SLOTS:
                     if t != l and self.st[t] == 'completed' and (l, t) in (('U1', 'U2'), ('U1', 'U3'), ('U1', 'V1'), ('U2', 'U1')):
                         ops.append(['pcall', l, t])
+                    # a rule that names another connection's unique name: the bus discards it when that connection goes
+                    # away, and the capacity it took must be free again
+                    if t != l and self.st[t] == 'completed' and (l, t) in (('U1', 'U2'), ('U2', 'U1'), ('U1', 'V1')):
+                        ops.append(['addu', l, t])
                 if any(c[1] == l for c in self.calls):
                     ops.append(['preply', l])
                 ops.append(['big', l, -8])
@@ -116,6 +121,30 @@ class Session(BusSession):
         return ops
 
     # ------------------------------------------------------------------
+    def forget_unique(self, gone):
+        # whether the bus discards other connections' rules that name the departed unique name is its own business (it does
+        # so only opportunistically); the model takes over whatever the implementation's rule LIST says afterwards -- the
+        # counter must agree with that list, and the limit applies to it
+        for l in SLOTS:
+            n = self.rules[l].pop(('u', gone), 0)
+            if n:
+                self.rules[l][('kept', gone)] += n
+                self.undecided.add((l, gone))
+
+    def settle_undecided(self, d):
+        for l, gone in sorted(self.undecided):
+            n = self.rules[l].pop(('kept', gone), 0)
+            other = sum(self.rules[l].values())
+            mm = re.search(r'conn @%s uid=\d+ n_services=\d+ len_services=\d+ n_rules=\d+ len_rules=(\d+)' % l, d)
+            keep = (int(mm.group(1)) - other) if mm else 0
+            if 0 <= keep <= n:
+                self.hit('rule-naming-departed-connection-' + ('kept' if keep else 'collected'), n)
+                if keep:
+                    self.rules[l][('kept', gone)] = keep
+            elif mm:
+                self.rules[l][('kept', gone)] = n        # neither outcome explains the list: reported by the comparison below
+        self.undecided = set()
+
     def accept_waiting(self, out, opdesc):
         """After capacity was freed the listener accepts queued connections FIFO."""
         while self.waitq and self.n_incomplete() < LIM['max_incomplete_connections']:
@@ -227,6 +256,7 @@ class Session(BusSession):
                 self.waitq.remove(l)
             self.reg.drop_connection(l)
             self.rules[l] = Counter()
+            self.forget_unique(l)
             self.uname[l] = None
             self.calls = [x for x in self.calls if x[0] != l and x[1] != l]      # its own calls vanish; calls TO it are answered NoReply
             if was in ('incomplete',):
@@ -317,8 +347,11 @@ class Session(BusSession):
                 code, _ = self.reg.release(l, n)
                 if rep is None or rep.kind != R.MT_RETURN or rep.args() != [code]:
                     out.append(Violation('reply-code', 'ReleaseName', '%s: answered %r, model %d' % (desc, rep, code), None))
-        elif kind in ('add', 'rm'):
-            l, r = op[1], RULES[op[2]]
+        elif kind in ('add', 'rm', 'addu'):
+            l = op[1]
+            r = RULES[op[2]] if kind != 'addu' else b"type='signal',sender='%s'" % self.uname[op[2]]
+            if kind == 'addu':
+                kind = 'add'
             before = self.impl_key()
             if kind == 'add':
                 s, rep = self.method(l, 'AddMatch', [R.S(r)])
@@ -333,7 +366,7 @@ class Session(BusSession):
                     if rep is None or rep.kind != R.MT_RETURN:
                         out.append(Violation('refused-below-limit', 'AddMatch', '%s: answered %r with %d rules held' % (desc, rep, sum(self.rules[l].values())), None))
                     else:
-                        self.rules[l][r] += 1
+                        self.rules[l][r if op[0] != 'addu' else ('u', op[2])] += 1
             else:
                 s, rep = self.method(l, 'RemoveMatch', [R.S(r)])
                 if self.rules[l][r] > 0:
@@ -366,6 +399,7 @@ class Session(BusSession):
                 self.slots[l] = None
                 self.reg.drop_connection(l)
                 self.rules[l] = Counter()
+                self.forget_unique(l)
                 self.uname[l] = None
             else:
                 self.hit('big-ok')
@@ -380,6 +414,7 @@ class Session(BusSession):
 
     def invariants(self, out, desc):
         d = self.impl_key()
+        self.settle_undecided(d)
         m = re.search(r'conns n_completed=(\d+) len_completed=(\d+) n_incomplete=(\d+) len_incomplete=(\d+)', d)
         nc, lc, ni, li = (int(x) for x in m.groups())
         if nc != lc or ni != li:
@@ -397,10 +432,14 @@ class Session(BusSession):
                 out.append(Violation('limit-exceeded', 'pending-replies-counter', '%s: %s has %d pending replies recorded' % (desc, lab, per[lab]), None))
             if per[lab] != mper[lab]:
                 out.append(Violation('model-differs', 'pending-replies', '%s: the bus records %d pending replies for %s, the model %d' % (desc, per[lab], lab, mper[lab]), None))
+        # the matchmaker's own lists, per rule holder (what actually gets matched)
+        inmm = Counter(mm.group(1) for mm in re.finditer(r'\|rule (\S+) ', '|' + d))
         uids = Counter()
         for mm in re.finditer(r'conn (\S+) uid=(\d+) n_services=(\d+) len_services=(\d+) n_rules=(\d+) len_rules=(\d+)', d):
             lab, uid, ns, ls, nr, lr = mm.group(1), int(mm.group(2)), int(mm.group(3)), int(mm.group(4)), int(mm.group(5)), int(mm.group(6))
             uids[uid] += 1
+            if inmm.get(lab, 0) != lr:
+                out.append(Violation('counter-mismatch', 'matchmaker-rules', '%s: %s holds %d rules by its own list (counter %d), the matchmaker has %d of them' % (desc, lab, lr, nr, inmm.get(lab, 0)), None))
             if ns != ls or nr != lr:
                 out.append(Violation('counter-mismatch', 'per-connection', '%s: %s n_services=%d list=%d n_rules=%d list=%d' % (desc, lab, ns, ls, nr, lr), None))
             if ns > self.lim_names() or nr > LIM['max_match_rules_per_connection']:
